@@ -12,8 +12,11 @@
 //     returned nil, for spans whose End (OnEnd) had returned before the call
 //     was issued AND before any Shutdown was issued; a ForceFlush that
 //     overlaps a Shutdown call is not asserted (documented: "Do nothing after
-//     Shutdown"), a Shutdown call that overlaps another Shutdown call is not
-//     asserted either (the loser of the race returns at once).
+//     Shutdown"). Through a TracerProvider a Shutdown call that overlaps
+//     another Shutdown call is not asserted (TracerProvider.Shutdown lets the
+//     loser of the race return at once, documented as a guard against
+//     recursion); the bare processor serialises concurrent Shutdown callers,
+//     so there EVERY Shutdown call that returned nil is asserted.
 //   - In non-blocking mode a span that is not visible at such a return must
 //     never be exported later (it can only have been dropped), and at the end
 //     of a run without a mid-run Shutdown the number of never-exported spans
@@ -49,7 +52,7 @@ type Op struct {
 	S int    `json:"s,omitempty"` // span index (end)
 	U bool   `json:"u,omitempty"` // span is unsampled (end)
 	P int    `json:"p,omitempty"` // perturbation before the op (vk.Perturb)
-	T int    `json:"t,omitempty"` // flush/shutdown: ctx timeout in microseconds, 0 = none, -1 = already cancelled
+	T int    `json:"t,omitempty"` // flush/shutdown: ctx timeout in microseconds, 0 = none, -1 = already cancelled, -2/-3/-6 = cancelled 0.3/0.6/1.5 ms after the call was issued
 }
 
 // Case is one generated program.
@@ -113,7 +116,7 @@ func gen(t *rapid.T) Case {
 						next++
 					case k < 18:
 						op.K = "flush"
-						op.T = rapid.SampledFrom([]int{0, 0, 0, 50, 5000, -1}).Draw(t, "ctx")
+						op.T = rapid.SampledFrom([]int{0, 0, 0, 50, 5000, -1, -2, -3, -6}).Draw(t, "ctx")
 					case k == 18 && !shutdownSeen && rapid.Bool().Draw(t, "really_shutdown"):
 						op.K = "shutdown"
 						op.T = rapid.SampledFrom([]int{0, 0, 100, -1}).Draw(t, "ctx")
@@ -238,6 +241,12 @@ type unsampledKey struct{}
 
 func mkCtx(t int) (context.Context, context.CancelFunc) {
 	switch {
+	case t <= -2:
+		// cancelled (not timed out) while the call is in progress: an exporter
+		// that honours its context then returns context.Canceled
+		ctx, cancel := context.WithCancel(context.Background())
+		timer := time.AfterFunc(time.Duration(-t-1)*300*time.Microsecond, cancel)
+		return ctx, func() { timer.Stop(); cancel() }
 	case t < 0:
 		ctx, cancel := context.WithCancel(context.Background())
 		cancel()
@@ -504,6 +513,17 @@ func runOnce(c Case) ([]vk.Violation, map[string]bool) {
 			firstNilShutdownEnd = r.end
 		}
 	}
+	if !c.ViaProvider && allShutdownsNil {
+		// The processor's own Shutdown serialises concurrent callers (they all
+		// wait for the drain): for the bare processor EVERY Shutdown call that
+		// returned nil is held to "nothing is exported after it returned".
+		firstNilShutdownEnd = int64(1) << 62
+		for _, r := range calls {
+			if r.kind == "shutdown" && r.end < firstNilShutdownEnd {
+				firstNilShutdownEnd = r.end
+			}
+		}
+	}
 	for ci, call := range ecalls {
 		if allShutdownsNil && call.enter > firstNilShutdownEnd {
 			bad("export_after_shutdown", "ExportSpans call %d started (t=%d) after Shutdown had returned nil (t=%d)", ci, call.enter, firstNilShutdownEnd)
@@ -533,7 +553,10 @@ func runOnce(c Case) ([]vk.Violation, map[string]bool) {
 				continue // overlaps or follows a Shutdown call
 			}
 		case "shutdown":
-			if r.start != firstShutdownIssue || overlapsOtherShutdown(r) {
+			if c.ViaProvider && (r.start != firstShutdownIssue || overlapsOtherShutdown(r)) {
+				continue
+			}
+			if !c.ViaProvider && !allShutdownsNil {
 				continue
 			}
 		}
